@@ -56,6 +56,8 @@ class NumOps (N : Type) where
   inf : N
   /-- exchange format of the driver (never a printed float): `i<dec>` / `f<16 hex>` [`~literal`] -/
   canon : N → String
+  /-- two-argument math builtins by name (`pow`, `atan2`), `none` = not modelled -/
+  math2 : String → N → N → Option N := fun _ _ _ => none
 
 /-- The laws the C25 theorems assume about the carrier (trusted for the executable `JNum`). -/
 class LawfulNum (N : Type) [NumOps N] : Prop where
@@ -63,10 +65,13 @@ class LawfulNum (N : Type) [NumOps N] : Prop where
   cmp_swap : ∀ a b : N, NumOps.cmp b a = (NumOps.cmp a b).swap
   cmp_trans : ∀ a b c : N, NumOps.cmp a b ≠ .gt → NumOps.cmp b c ≠ .gt → NumOps.cmp a c ≠ .gt
   cmp_eq_iff : ∀ a b : N, NumOps.cmp a b = .eq ↔ a = b
+  /-- `==` on numbers is "equal under the order" -/
+  eq_iff_cmp : ∀ a b : N, NumOps.eq a b = true ↔ NumOps.cmp a b = .eq
   toInt_ofInt : ∀ i : Int, NumOps.toInt? (NumOps.ofInt i : N) = some i
   ofInt_inj : ∀ i j : Int, (NumOps.ofInt i : N) = NumOps.ofInt j → i = j
   /-- integers are not NaN and are their own floor (so they index arrays exactly) -/
   isNan_ofInt : ∀ i : Int, NumOps.isNan (NumOps.ofInt i : N) = false
+  isInf_ofInt : ∀ i : Int, NumOps.isInf (NumOps.ofInt i : N) = false
   floor_ofInt : ∀ i : Int, NumOps.math "floor" (NumOps.ofInt i : N) = some (NumOps.ofInt i)
 
 namespace JV
@@ -233,6 +238,9 @@ def resolveIdx (i : Int) (len : Nat) : Option Nat :=
 (reads as null), `none` when not representable (no verdict) -/
 def idxOf (n : N) : Option (Option Int) :=
   if NumOps.isNan n then some none
+  else if NumOps.isInf n then
+    -- ±infinity: far outside every array (reads null); the sign is that of the number
+    some (some (if NumOps.cmp n (NumOps.ofInt 0) == .lt then -4611686018427387904 else 4611686018427387904))
   else match NumOps.math "floor" n with
     | some f => (NumOps.toInt? f).map some
     | none => none
